@@ -9,7 +9,9 @@ Per word:
       architecture, cross-checked against LLVM's disassembler at start-up) assigns to its primary / extended opcode;
       bin() gives back the word; str() returns text; ppc_mn.asm(text) gives back the word.
 """
+import os
 import sys
+import json
 import struct
 import hashlib
 from hypothesis import strategies as st
@@ -39,6 +41,11 @@ def judge(w):
         fails.append((("ambiguous",) + tuple(sorted(c.__name__ for c in claims)), "%08x is claimed by %s" % (w, [c.__name__ for c in claims])))
         return "fail", fails
     rb = ref[0].rstrip(".") if ref else "-"          # the architecture's base mnemonic: part of every signature
+    if rb in ("bc", "bclr", "bcctr"):
+        # conditional branches: the BO class and whether BI names a field other than CR0 are part of the bucket (the existing
+        # defects of these renderers are confined to some of the classes)
+        bo, bi = (w >> 21) & 31, (w >> 16) & 31
+        rb += ":" + ("always" if bo & 0x14 == 0x14 else "ctr-only" if bo & 0x10 else "cond-only" if bo & 0x04 else "cond+ctr") + (":hint" if bo & 1 else "") + (":cr0" if bi < 4 else ":crN")
     if not claims:
         # no class claims the word: the decoder entry point must refuse it too (it must not answer from some other state)
         try:
@@ -140,6 +147,60 @@ def field_diff(a, b):
     return [n for n, sh, l in groups if (x >> sh) & ((1 << l) - 1)][0]
 
 
+def branch_words():
+    """the deterministic branch sub-space judged word by word against baselines/c18_branches.json"""
+    out = []
+    for bo in range(32):
+        for bi in range(32):
+            for bd in (0, 4, 0x10, 0x7FFC, 0x8000, 0xFFFC):
+                for aalk in range(4):
+                    out.append((16 << 26) | (bo << 21) | (bi << 16) | bd | aalk)
+            for xo in (16, 528):
+                for lk in (0, 1):
+                    for bh in (0, 1, 3):
+                        out.append((19 << 26) | (bo << 21) | (bi << 16) | (bh << 11) | (xo << 1) | lk)
+    return out
+
+
+BASELINE = os.path.join(os.path.dirname(os.path.dirname(os.path.abspath(__file__))), "baselines", "c18_branches.json")
+_BASE = None
+
+
+def baseline():
+    global _BASE
+    if _BASE is None:
+        _BASE = set()
+        if os.path.exists(BASELINE):
+            with open(BASELINE) as f:
+                _BASE = set(json.load(f)["failing"])
+    return _BASE
+
+
+def w_branch(run, st_, k, words):
+    base = baseline()
+    with runner.quiet():
+        for w in words:
+            st_.ev()
+            r = judge(w)
+            key = "%08x" % w
+            if r[0] == "fail":
+                st_.failing_words = getattr(st_, "failing_words", [])
+                st_.samples_fail = None
+                st_.klass("branch_word_failing")
+                if key in base:
+                    st_.known_hits[("branch-baseline",)] += 1
+                else:
+                    sig = runner.norm_sig(("branch-word-newly-failing", r[1][0][0][0]))
+                    if not any(f[0] == sig for f in st_.failures):
+                        st_.fail(sig, "%s is not in the committed baseline of failing branch words: %s" % (key, r[1][0][1]), {"word": key, "branch": True})
+            else:
+                st_.klass("branch_word_" + r[0])
+                if r[0] == "ok":
+                    st_.nt(w)
+                if key in base:
+                    st_.klass("branch_word_listed_but_now_passing")
+
+
 def w_words(run, st_, k, words):
     with runner.quiet():
         for w in words:
@@ -192,16 +253,7 @@ def structured():
             for ra in (0, 1, 31):
                 for imm in imms:
                     out.append((po << 26) | (rt << 21) | (ra << 16) | imm)
-    # branches
-    for bo in range(32):
-        for bi in range(32):
-            for bd in (0, 4, 0x10, 0x7FFC, 0x8000, 0xFFFC):
-                for aalk in range(4):
-                    out.append((16 << 26) | (bo << 21) | (bi << 16) | bd | aalk)
-            for xo in (16, 528):
-                for lk in (0, 1):
-                    for bh in (0, 1, 3):
-                        out.append((19 << 26) | (bo << 21) | (bi << 16) | (bh << 11) | (xo << 1) | lk)
+    # (conditional branches: see branch_words())
     for li in (0, 4, 0x10, 0x1FFFFFC, 0x2000000, 0x3FFFFFC, 0x1234564, 0x3000000):
         for aalk in range(4):
             out.append((18 << 26) | li | aalk)
@@ -308,6 +360,18 @@ def main(run):
     if bad:
         raise runner.Inconclusive("reference opcode map disagrees with llvm-mc: %s" % bad[:5])
     run.extra["reference_entries_confirmed_by_llvm"] = n
+    bw = branch_words()
+    if os.environ.get("VERIF_C18_WRITE_BASELINE"):
+        # developer mode: regenerate the committed baseline from the unchanged tree
+        with runner.quiet():
+            failing = sorted("%08x" % w for w in bw if judge(w)[0] == "fail")
+        os.makedirs(os.path.dirname(BASELINE), exist_ok=True)
+        with open(BASELINE, "w") as f:
+            json.dump({"what": "conditional-branch words (bc: all BO x BI x 6 displacements x AA x LK; bclr / bcctr: all BO x BI x BH x LK) that fail some clause of C18 on the unchanged tree", "failing": failing}, f, indent=0)
+        print("wrote %d failing of %d branch words" % (len(failing), len(bw)))
+    run.extra["branch_words"] = len(bw)
+    run.extra["baseline_failing_branch_words"] = len(baseline())
+    runner.pmap(run, w_branch, list(runner.chunks(bw, 2048)))
     words = grid(run.tier, run.seed) + structured()
     run.extra["enumerated_words"] = len(words)
     runner.pmap(run, w_words, list(runner.chunks(words, 4096)))
@@ -320,6 +384,10 @@ def replay(run, case):
         r = judge(w)
     if r[0] != "fail":
         return None
+    if run.want_sig == ("branch-baseline",):
+        return (("branch-baseline",), r[1][0][1])
+    if case.get("branch"):
+        return (("branch-word-newly-failing", r[1][0][0][0]), r[1][0][1]) if ("%08x" % w) not in baseline() else None
     for sig, det in r[1]:
         sig = runner.norm_sig(sig)
         if run.want_sig is None or sig == run.want_sig:
